@@ -1,6 +1,35 @@
-import Netpoll.Buf.Spec
+import Netpoll.Buf.OwnerLemmas10
+/-!
+C02 – zero-copy read results stay intact until their reader is released.
+
+Theorems over the ownership ledger model `Netpoll.Buf.Own` (see Props/C03.lean).  A *view* of the ledger is a
+result handed out by Next / Peek / Until / GetBytes (`block[lo, hi)`, owner buffer); Slice readers hold child
+nodes on the parent's blocks.  Views end at Release / Close / Slice of the owner and at the Append that gives
+the owner away.
+-/
 namespace Netpoll.Props.C02
-open Netpoll.Buf
-/-- placeholder until the ledger model is merged: a fresh buffer holds no readable byte. -/
-theorem fresh_empty (cfg : Cfg) (n : Nat) : (newLB cfg n : LB Nat).length = 0 := rfl
+open Netpoll.Buf Netpoll.Buf.Own
+
+/-- the concrete history of known finding D4 (corpus/C02/d04-writedirect-split-slice.ops, `seq 315 16`):
+`WriteDirect(extra, remain = 13)` splits block 1 into an unmanaged head node and a managed tail node; a Slice
+reader (buffer 4) takes a child of the head; `Close` of the parent frees block 1 through the tail. -/
+def d4cfg : Cfg := { linkBufferCap := 16 }
+def d4ops : List Op := [.new 1 30, .mal 1 33, .wdir 1 33 33 13, .flush 1, .slice 1 17 4, .close 1]
+
+/-- **D4 witness**: the unrestricted claim "no pool block is handed back while a chained node of an open reader
+or a live view lies in it" is false for the code as it is. -/
+theorem C02_D4_witness : ¬ ∀ ops : List Op, (run d4cfg {} ops).noDangling = true := by
+  intro h
+  exact absurd (h d4ops) (by decide)
+
+/-- before the parent is closed everything is still fine on that history (the witness is minimal in its last step) -/
+example : (run d4cfg {} (d4ops.take 5)).noDangling = true := by decide
+
+/-- a second witness (corpus/C02/d04b-writedirect-split-next-read.ops) with a plain `Next` result instead of a Slice reader: the head part is exposed by `Next`, a copying
+`Read` consumes the caller node and the tail, and releases the (unexposed) tail at once – the block is freed under the
+live view -/
+def d4ops' : List Op := [.new 1 30, .mal 1 33, .wdir 1 5 5 13, .mal 1 100, .flush 1, .next 1 20, .read 1 30]
+
+theorem C02_D4_witness_view : (run d4cfg {} d4ops').noDangling = false := by decide
+
 end Netpoll.Props.C02
